@@ -281,7 +281,59 @@ def b3(e: Engine, rep: Report):
                               loc=n.loc(), reason='loop variables passed')
 
 
+def truthiness_overloaded(e: Engine, cq: str):
+    for k in e.p.mro(cq):
+        if k in ('gevent.Greenlet', 'gevent.greenlet.Greenlet',
+                 'collections.deque'):
+            return k
+        c = e.p.classes.get(k)
+        if c is not None and ('__bool__' in c.methods or
+                              '__len__' in c.methods):
+            return k
+    return None
+
+
+def b4_configured(e: Engine, rep: Report):
+    """The configured bounce queue is the one used: its default must not be
+    chosen by truthiness (a Queue is a Greenlet, which is falsy until it is
+    started and again once it has finished)."""
+    from .. import tables
+    c = e.p.cls(QUEUE)
+    init = c.methods.get('__init__')
+    if init is None:
+        rep.error('anchor vanished: Queue.__init__')
+        return
+    found = False
+    for n in walk_own(init.node):
+        if not (isinstance(n, ast.Assign) and any(
+                isinstance(t, ast.Attribute) and t.attr == 'bounce_queue'
+                for t in n.targets)):
+            continue
+        found = True
+        rep.evaluations += 1
+        v = n.value
+        types = tables.SEED_ATTR_TYPES.get((QUEUE, 'bounce_queue'), [])
+        over = [truthiness_overloaded(e, t) for t in types]
+        by_truth = isinstance(v, ast.BoolOp) and isinstance(v.op, ast.Or) \
+            and isinstance(v.values[0], ast.Name) and \
+            v.values[0].id in init.params
+        if isinstance(v, ast.IfExp) and isinstance(v.test, ast.Name):
+            by_truth = True
+        rep.check(not (by_truth and any(over)), 'B4', init.qname,
+                  'configured bounce queue is used whatever its state',
+                  'the bounce_queue parameter is defaulted by truthiness '
+                  '(`%s`), but a Queue is a %s whose truth value is False '
+                  'until it is started and after it has finished: a '
+                  'configured bounce queue that is not running yet (or '
+                  'that has no relay and ended) is silently replaced by '
+                  'self' % (ast.unparse(v), (over or ['?'])[0]),
+                  loc=init.loc(n), reason='defaulted with `is None`')
+    if not found:
+        rep.error('anchor vanished: self.bounce_queue assignment')
+
+
 def b4(e: Engine, rep: Report):
+    b4_configured(e, rep)
     ctx = e.method_ctx(QUEUE, '_bounce')
     g = e.build(ctx)
     fx = e.facts(g)
